@@ -57,7 +57,7 @@ ROGUE_SCENS = [
     dict(auth="cert", suite="TLS_ECDHE_ECDSA_WITH_AES_128_GCM_SHA256", cidC=-1, cidS=-1),
     dict(auth="cert", suite="TLS_ECDHE_ECDSA_WITH_AES_256_CBC_SHA", cidC=-1, cidS=-1),
     dict(auth="cert", suite="TLS_ECDHE_ECDSA_WITH_AES_128_CCM_8", cidC=8, cidS=8),
-    dict(auth="cert", suite="TLS_ECDHE_ECDSA_WITH_CHACHA20_POLY1305_SHA256", cidC=-1, cidS=-1, emsC=1),
+    dict(auth="cert", suite="TLS_ECDHE_ECDSA_WITH_CHACHA20_POLY1305_SHA256", cidC=-1, cidS=-1),
     dict(auth="psk", suite="TLS_PSK_WITH_AES_128_GCM_SHA256", cidC=-1, cidS=-1),
     dict(auth="rsa", suite="TLS_ECDHE_RSA_WITH_AES_256_GCM_SHA384", cidC=-1, cidS=-1),
 ]
@@ -202,39 +202,6 @@ def run(chk):
         scripts = scripts[:cap]
     cases = [make_case(rng, s, i) for i, s in enumerate(scripts)]
     binary = vlib.build("root")
-    rows, total = run_cases(cases, binary)
-    chk.traces(total.get("cases", 0))
-    chk.evaluated(n=total.get("steps", 0))
-    for c in cases:
-        chk.distinct.add(c["content"] + "|" + json.dumps([(x["act"], x["k"], x["arg"]) for x in c["steps"]]))
-    ndiv = nlab = 0
-    divkinds = {}
-    for r in rows:
-        c = cases[r["case"]]
-        if r.get("lab"):
-            nlab += 1
-            continue
-        for v in r.get("violations") or []:
-            chk.violation({"kind": v["kind"], "what": v["what"], "content": c["content"], "connection": v["k"],
-                           "case": c, "conns": r.get("conns"), "cstore": r.get("cstore"), "sstore": r.get("sstore")})
-        if r.get("diverge"):
-            ndiv += 1
-            d0 = r["diverge"][0]
-            key = d0.split(":", 1)[-1].strip()[:60]
-            divkinds[key] = divkinds.get(key, 0) + 1
-            if ndiv <= 5:
-                chk.note("DIVERGENCE model/code (not a verdict): %s [%s]" % (d0, c["name"][:80]))
-    if nlab > max(3, len(cases) // 100):
-        raise vlib.Inconclusive("%d of %d histories could not be executed" % (nlab, len(cases)))
-    if ndiv > len(cases) // 20:
-        raise vlib.Inconclusive("model and code diverge on %d of %d histories: %s" % (ndiv, len(cases), sorted(divkinds.items(), key=lambda x: -x[1])[:4]))
-    # vacuity guards: the interesting situations were really exercised
-    need = {"resumed": 300, "full": 300, "failed": 300, "alerts": 50, "crossRejected": 50, "ctlOK": 100, "dataBothWays": 300}
-    for k, n in need.items():
-        if total.get(k, 0) < n:
-            raise vlib.Inconclusive("vacuous resumption run: %s = %d (< %d)" % (k, total.get(k, 0), n))
-    if total.get("ctlOK", 0) < 0.95 * total.get("ctlTried", 0):
-        raise vlib.Inconclusive("record injection control failed: %s of %s" % (total.get("ctlOK"), total.get("ctlTried")))
     # ---- rogue peer scripts (a "server" that holds no secret of the client's store)
     gen = vlib.tlc_generate(MODULE, "Resumption.rogue.gen.%s.cfg" % t, timeout=900)
     chk.add_tlc("gen.rogue", gen)
@@ -261,6 +228,42 @@ def run(chk):
         raise vlib.Inconclusive("rogue-peer control (peer holding the client's secret is accepted) succeeded only %d times" % controls)
     chk.parts["rogue"] = {"cases": len(rcases), "controls_accepted": controls, "diverged": rdiv}
     chk.sample({"rogue": rcases[len(rcases) // 2]["name"]})
+    # ---- histories
+    rows, total = run_cases(cases, binary)
+    chk.traces(total.get("cases", 0))
+    chk.evaluated(n=total.get("steps", 0))
+    for c in cases:
+        chk.distinct.add(c["content"] + "|" + json.dumps([(x["act"], x["k"], x["arg"]) for x in c["steps"]]))
+    ndiv = nlab = 0
+    divkinds = {}
+    for r in rows:
+        c = cases[r["case"]]
+        if r.get("lab"):
+            nlab += 1
+            continue
+        for v in r.get("violations") or []:
+            chk.violation({"kind": v["kind"], "what": v["what"], "content": c["content"], "connection": v["k"],
+                           "case": c, "conns": r.get("conns"), "cstore": r.get("cstore"), "sstore": r.get("sstore")})
+        if r.get("diverge"):
+            ndiv += 1
+            d0 = r["diverge"][0]
+            key = d0.split(":", 1)[-1].strip()[:60]
+            divkinds[key] = divkinds.get(key, 0) + 1
+            if ndiv <= 5:
+                chk.note("DIVERGENCE model/code (not a verdict): %s [%s]" % (d0, c["name"][:80]))
+    if chk.violations:
+        return      # a real-code violation is reported even if other parts of the run are inconclusive
+    if nlab > max(3, len(cases) // 100):
+        raise vlib.Inconclusive("%d of %d histories could not be executed" % (nlab, len(cases)))
+    if ndiv > len(cases) // 20:
+        raise vlib.Inconclusive("model and code diverge on %d of %d histories: %s" % (ndiv, len(cases), sorted(divkinds.items(), key=lambda x: -x[1])[:4]))
+    # vacuity guards: the interesting situations were really exercised
+    need = {"resumed": 300, "full": 300, "failed": 300, "alerts": 50, "crossRejected": 50, "ctlOK": 100, "dataBothWays": 300}
+    for k, n in need.items():
+        if total.get(k, 0) < n:
+            raise vlib.Inconclusive("vacuous resumption run: %s = %d (< %d)" % (k, total.get(k, 0), n))
+    if total.get("ctlOK", 0) < 0.95 * total.get("ctlTried", 0):
+        raise vlib.Inconclusive("record injection control failed: %s of %s" % (total.get("ctlOK"), total.get("ctlTried")))
     chk.parts["replay"] = dict(total, edge_scripts=edges, after_prefix_dedupe=len(scripts), diverged=ndiv, lab=nlab)
     chk.sample({"history": cases[0]["name"], "steps": [(x["act"], x["k"], x["arg"]) for x in cases[0]["steps"]]})
     chk.sample({"store_contents": sorted(set(c["content"] for c in cases))})
